@@ -255,7 +255,13 @@ pub fn gen_machine(r: &mut GRng, real: bool) -> MMachine {
 }
 
 pub fn gen_conf(r: &mut GRng, real: bool) -> MConf {
-    let n = *pick(r, &[0usize, 1, 1, 2, 2, 3, 4]);
+    // mostly a few machines; now and then more than fit a small fixed-size structure
+    // (slots, masks, inline arrays), up to beyond 64
+    let n = match r.gen_range(0..40) {
+        0 => r.gen_range(65..=70),
+        1 => r.gen_range(9..=33),
+        _ => *pick(r, &[0usize, 1, 1, 2, 2, 3, 4, 5, 6, 8]),
+    };
     MConf {
         M: (0..n).map(|_| gen_machine(r, real)).collect(),
         fwPad: gen_frac(r),
@@ -296,7 +302,7 @@ pub fn gen_history(r: &mut GRng, n: usize, calls: usize, big_ids: bool) -> Vec<C
     for _ in 0..calls {
         let step = *pick(r, &[0i64, 0, 1, 1, 2, 5, 50, 1000, -3]);
         t = (t + step).clamp(-10, 900_000);
-        let len = *pick(r, &[1usize, 1, 1, 1, 0, 2, 3, 4, 5]);
+        let len = *pick(r, &[1usize, 1, 1, 1, 0, 2, 3, 4, 5, 7, 12]);
         h.push(Call {
             events: (0..len).map(|_| gen_event(r, n, big_ids)).collect(),
             t,
